@@ -170,8 +170,23 @@ func Minimise(t *testing.T, plan *Plan, want *Violation, opts Opts, maxExec int,
 			break
 		}
 	}
+	spent := func() bool { return execs >= maxExec || time.Since(start) > maxTime }
+	// 3a. large set-ups (wide collections, deep chains): whole blocks first
+	for size := len(best.Setup) / 2; size >= 8 && !spent(); size /= 2 {
+		for i := len(best.Setup) - size; i >= 0 && !spent(); i -= size {
+			if i+size > len(best.Setup) {
+				continue
+			}
+			c := best.Clone()
+			c.Setup = append(append([]SetupOp{}, c.Setup[:i]...), c.Setup[i+size:]...)
+			try(c)
+		}
+	}
 	// 3. set-up operations, one at a time (later ones first: children before parents)
 	for i := len(best.Setup) - 1; i >= 0; i-- {
+		if spent() {
+			break
+		}
 		if i >= len(best.Setup) {
 			continue
 		}
@@ -261,6 +276,9 @@ func Minimise(t *testing.T, plan *Plan, want *Violation, opts Opts, maxExec int,
 		}
 	}
 	for i := range best.Setup {
+		if execs >= maxExec || time.Since(start) > maxTime {
+			break
+		}
 		if len(best.Setup[i].Data) > 4 {
 			c := best.Clone()
 			c.Setup[i].Data = c.Setup[i].Data[:3]
